@@ -1,4 +1,6 @@
 import H3.Lemmas.ReqRecv
+import H3.Lemmas.ReqLift
+import H3.Lemmas.FrameRefSpec
 /-! # C03 — request streams accept exactly the RFC 9114 §4.1 frame sequences
 
 Model: `H3.ReqRecv` (the request layer of `connection.rs`, `server/request.rs`,
@@ -392,5 +394,232 @@ example : documentedChunks .client allOk
 example : documentedChunks .server allOk [.chunk [0x01, 0x02, 0xaa, 0xbb, 0x00, 0x02, 0xc1], .reset 9] =
     documentedFrames .server allOk 20 [.headers [0xaa, 0xbb]] (.reset 9) := by
   decide +kernel
+
+/-! ## The lifting to chunks, unconditionally
+
+`C03_lifted_to_chunks` above needs a simulation between the frame layer and the token source as a
+hypothesis.  For the `FrameStream` model (`fsSrc`) it is discharged here from the C02 invariant, for
+EVERY transport script.  Two remarks on the shape of the statement.
+
+* A `FrameSim` in the strict sense cannot exist once the script has a `Pending` before more data
+  (`C03_strict_sim_impossible`): the model answers `Pending` and later a frame, the token source
+  repeats its ending for ever.  The documented pattern never calls the frame layer again after
+  `Pending` or an error, so the simulation that is proved — `FrameSimP`, `liftR_sim` — asks for
+  related successors only after a frame, a data piece or `None`; every `FrameSim` is a `FrameSimP`
+  (`FrameSim.toP`) and `same_documentedP` gives for `FrameSimP` what `same_documented` gives for
+  `FrameSim`.  With a `Pending` in the middle the frame sequence `toks` is what the frame layer
+  delivers up to that `Pending`, and the ending is `open_` — exactly what the application sees.
+* The pieces in which a DATA payload is handed out, and how much of a payload cut short by FIN or
+  RESET is handed out at all, depend on the chunking (C02), so `toks` is a function of the script;
+  what does not depend on it is stated by `Tied`: flattened to byte granularity the answers
+  `compile toks e` are the tokens of the reference automaton `run frameDec` over the bytes taken
+  from the transport — all of them when the ending is `fin`, `open_`, a protocol error or a
+  truncation inside a frame header or non-DATA payload; all but possibly some of the last payload
+  bytes for a truncation inside DATA; a prefix for `reset`. -/
+
+open H3.FS (ScriptOK evBytes run frameDec upToFin)
+
+/-- The general simulation: the `FrameStream` model over a transport script, in any configuration
+    satisfying the C02 invariant, answers `has_data`/`poll_next`/`poll_data`/`is_eos` like the
+    token source that holds the model's own future answers (`LiftR`), as long as the documented
+    pattern goes on; and for every script of non-empty chunks without a WebTransport header the
+    initial configuration is related to the token source of a well-formed frame sequence tied to
+    the bytes of the script. -/
+theorem C03_frame_layer_simulation :
+    FrameSimP fsSrc tokSrc LiftR ∧
+    ∀ sc : List H3.FS.Ev, ScriptOK sc → NoRaw (evBytes (upToFin sc)) →
+      ∃ toks e, LiftR ({}, sc) (TS.ofToks toks e) ∧ (∀ tok ∈ toks, TokWF tok) ∧ Tied sc toks e := by
+  refine ⟨liftR_sim, fun sc hsc hraw => ?_⟩
+  obtain ⟨toks, e, hR, hwf, _, _, htied⟩ := lift_exists sc hsc hraw
+  exact ⟨toks, e, hR, hwf, htied⟩
+
+/-- **The lifting, closed.**  For every role, every header oracle `H`, every transport script `sc`
+    of non-empty chunks (ANY cutting of the bytes, `Pending` anywhere, FIN / RESET anywhere or
+    neither) whose bytes before the first FIN carry no WebTransport header at a frame position
+    (`NoRaw`, a decidable condition on the byte string, `C03_noraw_of_framing_spec`) and whose
+    HEADERS blocks decode to well-formed messages (`hH`, as in `C03_server_recv_spec`; the blocks
+    are those the reference automaton finds in these bytes):
+    there is a frame sequence `toks` with ending `e`, well formed and tied to the bytes of the
+    script (`Tied`), such that the documented call pattern over the chunked frame layer —
+    `documentedChunks`, and `documented role fsSrc` with any fuel — gives exactly the trace of the
+    frame-level model on `toks`/`e`; hence its observed outcome is one the RFC 9114 §4.1 recogniser
+    accepts for `toks`.  No simulation hypothesis is left. -/
+theorem C03_lifted_to_chunks_closed (role : Role) (H : Hdr) (sc : List H3.FS.Ev)
+    (hsc : ScriptOK sc) (hraw : NoRaw (evBytes (upToFin sc)))
+    (hH : ∀ b, H3.FS.Tok.frame (.headers b) ∈ (run frameDec (.hdr []) (evBytes (upToFin sc))).2 →
+      H.head b = .ok ∧ H.trailer b = .ok) :
+    ∃ toks e, Tied sc toks e ∧ (∀ tok ∈ toks, TokWF tok ∧ HdrOk H tok) ∧
+      documentedChunks role H sc = documentedFrames role H (fsFuel ({}, sc)) toks e ∧
+      (spec (sideOf role) (toks.map kind) (stopOf e)).accepts (observe (documentedChunks role H sc)) ∧
+      ∀ fuel, documented role fsSrc H fuel { src := ({}, sc) } = documentedFrames role H fuel toks e := by
+  obtain ⟨toks, e, hR, hwf, hfuel, hhdr, htied⟩ := lift_exists sc hsc hraw
+  have hok : ∀ tok ∈ toks, TokWF tok ∧ HdrOk H tok := by
+    intro tok htok
+    refine ⟨hwf tok htok, ?_⟩
+    cases tok with
+    | headers b =>
+      obtain ⟨more, hm⟩ := tied_prefix htied
+      exact hH b (by rw [← hm]; exact List.mem_append_left _ (hhdr b htok))
+    | _ => trivial
+  have hdoc : ∀ fuel, documented role fsSrc H fuel { src := ({}, sc) } =
+      documentedFrames role H fuel toks e := fun fuel =>
+    same_documentedP liftR_sim tokSrc_hdrNoData role H fuel (x := { src := ({}, sc) })
+      (y := { src := TS.ofToks toks e }) ⟨fun _ => hR, rfl, rfl⟩ rfl
+  refine ⟨toks, e, htied, hok, hdoc _, ?_, hdoc⟩
+  show (spec (sideOf role) (toks.map kind) (stopOf e)).accepts
+    (observe (documented role fsSrc H (fsFuel ({}, sc)) { src := ({}, sc) }))
+  rw [hdoc]
+  exact recv_spec role H e toks _ hok hfuel
+
+/-! non-vacuity of `C03_lifted_to_chunks_closed`: the hypotheses hold for concrete scripts (`NoRaw`
+    is decided by evaluating the reference automaton), e.g. `script₁` above, and a script with a `Pending` in the middle, where the documented pattern stops at the
+    first `Pending` answer -/
+example : ScriptOK script₁ ∧ NoRaw (evBytes (upToFin script₁)) := by
+  refine ⟨?_, by decide +kernel⟩
+  intro b hb
+  simp [script₁] at hb
+  rcases hb with rfl | rfl | rfl <;> simp
+
+example : ∃ toks e, Tied script₁ toks e ∧ (∀ tok ∈ toks, TokWF tok ∧ HdrOk allOk tok) ∧
+    documentedChunks .server allOk script₁ = documentedFrames .server allOk (fsFuel ({}, script₁)) toks e ∧
+    (spec .server (toks.map kind) (stopOf e)).accepts (observe (documentedChunks .server allOk script₁)) ∧
+    ∀ fuel, documented .server fsSrc allOk fuel { src := ({}, script₁) } =
+      documentedFrames .server allOk fuel toks e :=
+  C03_lifted_to_chunks_closed .server allOk script₁
+    (by intro b hb; simp [script₁] at hb; rcases hb with rfl | rfl | rfl <;> simp)
+    (by decide +kernel) (fun _ _ => ⟨rfl, rfl⟩)
+
+def script₃ : List H3.FS.Ev :=
+  [.chunk [0x01], .chunk [0x02, 0xaa, 0xbb], .pend, .chunk [0x00, 0x02, 0xc1, 0xc2], .fin]
+
+example : observe (documentedChunks .server allOk script₃) =
+    { calls := [.head [0xaa, 0xbb], .body [], .pending] } := by decide +kernel
+example : ∃ toks e, Tied script₃ toks e ∧ (∀ tok ∈ toks, TokWF tok ∧ HdrOk allOk tok) ∧
+    documentedChunks .client allOk script₃ = documentedFrames .client allOk (fsFuel ({}, script₃)) toks e ∧
+    (spec .client (toks.map kind) (stopOf e)).accepts (observe (documentedChunks .client allOk script₃)) ∧
+    ∀ fuel, documented .client fsSrc allOk fuel { src := ({}, script₃) } =
+      documentedFrames .client allOk fuel toks e :=
+  C03_lifted_to_chunks_closed .client allOk script₃
+    (by intro b hb; simp [script₃] at hb; rcases hb with rfl | rfl | rfl <;> simp)
+    (by decide +kernel) (fun _ _ => ⟨rfl, rfl⟩)
+-- a WebTransport header at a frame position is what `NoRaw` excludes
+example : ¬ NoRaw [0x01, 0x00, 0x40, 0x41, 0x04, 0xaa] := by decide +kernel
+
+/-- The side condition `NoRaw` in RFC terms: it holds for every well-formed byte string on which the
+    RFC 9114 §7.1 oracle of C02 (`Spec.Framing.observe`, either ending) does not say `outside` —
+    i.e. which has no frame of type 0x41 (the WebTransport stream signal) at a frame position. -/
+theorem C03_noraw_of_framing_spec (w : List Nat) (e : H3.Spec.Framing.Ending) (hwf : H3.Varint.WF w)
+    (hno : H3.Spec.Framing.Tok.outside ∉ H3.Spec.Framing.observe (w.length + 1) w e) : NoRaw w :=
+  H3.Spec.Framing.agree_noraw (H3.Spec.Framing.reference_is_spec w e hwf hno)
+
+example : NoRaw [0x01, 0x02, 0xaa, 0xbb, 0x00, 0x01, 0xc1] :=
+  C03_noraw_of_framing_spec _ .fin (by intro b hb; simp at hb; omega) (by decide +kernel)
+
+/-- **The same for every chunking: FIN on a frame boundary.**  The wire bytes `w`, cut into
+    non-empty chunks in ANY way (`pre`: chunks only, `evBytes pre = w`), then FIN (whatever the
+    script says behind it is never looked at).  If `w` is a sequence of complete frames (the
+    reference automaton stands at a frame boundary; no WebTransport header; the HEADERS blocks found
+    in `w` decode to well-formed messages) then the observed outcome of the documented pattern over
+    the chunked frame layer is one the RFC 9114 §4.1 recogniser accepts for the frame kinds read
+    off the reference automaton's tokens over `w` (`kindsOf`), ended by FIN.  The right-hand side
+    mentions neither the chunking nor the frame layer: the outcome (head, body bytes, end of body,
+    trailers, or the connection error / stream refusal) is a function of the bytes alone. -/
+theorem C03_chunked_outcome_fin (role : Role) (H : Hdr) (pre post : List H3.FS.Ev)
+    (hpre : OnlyChunks pre) (hsc : ScriptOK (pre ++ .fin :: post)) (hraw : NoRaw (evBytes pre))
+    (hH : ∀ b, H3.FS.Tok.frame (.headers b) ∈ (run frameDec (.hdr []) (evBytes pre)).2 →
+      H.head b = .ok ∧ H.trailer b = .ok)
+    (hclean : (run frameDec (.hdr []) (evBytes pre)).1 = .hdr []) :
+    (spec (sideOf role) (kindsOf (run frameDec (.hdr []) (evBytes pre)).2) .fin).accepts
+      (observe (documentedChunks role H (pre ++ .fin :: post))) := by
+  have hfin : H3.FS.Ev.fin ∉ pre := fun hm => by obtain ⟨b, hb⟩ := hpre _ hm; cases hb
+  have hup : upToFin (pre ++ .fin :: post) = pre := H3.FS.upToFin_fin pre post hfin
+  obtain ⟨toks, e, htied, _, _, hacc, _⟩ :=
+    C03_lifted_to_chunks_closed role H (pre ++ .fin :: post) hsc (by rw [hup]; exact hraw)
+      (by rw [hup]; exact hH)
+  obtain ⟨he, hk⟩ := tied_fin_exact hpre htied hclean
+  rw [he, hk] at hacc
+  exact hacc
+
+/-- **The same for every chunking: stream still open.**  The bytes `w` received so far, cut into
+    non-empty chunks in ANY way, nothing else yet (no FIN, no RESET), no protocol error in `w`: the
+    observed outcome is one the recogniser accepts for the frame kinds read off the reference
+    automaton's tokens over `w`, stream still open — every complete frame of `w` has been acted on
+    (and every payload byte of a DATA frame still arriving has been handed out), the call in
+    progress is pending. -/
+theorem C03_chunked_outcome_open (role : Role) (H : Hdr) (sc : List H3.FS.Ev)
+    (hch : OnlyChunks sc) (hsc : ScriptOK sc) (hraw : NoRaw (evBytes sc))
+    (hH : ∀ b, H3.FS.Tok.frame (.headers b) ∈ (run frameDec (.hdr []) (evBytes sc)).2 →
+      H.head b = .ok ∧ H.trailer b = .ok)
+    (hlive : (run frameDec (.hdr []) (evBytes sc)).1 ≠ .dead) :
+    (spec (sideOf role) (kindsOf (run frameDec (.hdr []) (evBytes sc)).2) .open_).accepts
+      (observe (documentedChunks role H sc)) := by
+  have hfin : H3.FS.Ev.fin ∉ sc := fun hm => by obtain ⟨b, hb⟩ := hch _ hm; cases hb
+  have hup : upToFin sc = sc := by
+    have := H3.FS.upToFin_append_of_not_mem sc [] hfin
+    simpa [upToFin] using this
+  obtain ⟨toks, e, htied, _, _, hacc, _⟩ :=
+    C03_lifted_to_chunks_closed role H sc hsc (by rw [hup]; exact hraw) (by rw [hup]; exact hH)
+  obtain ⟨he, hk⟩ := tied_open_exact hch htied hlive
+  rw [he, hk] at hacc
+  exact hacc
+
+/-! non-vacuity: the eleven bytes of `script₁` (HEADERS, DATA(0), DATA(2), a grease frame) in three
+    cuttings; the recogniser's input and its verdict are computed from the bytes alone -/
+def wire₁ : List Nat := [0x01, 0x02, 0xaa, 0xbb, 0x00, 0x00, 0x00, 0x02, 0xc1, 0xc2, 0x21, 0x00]
+example : kindsOf (run frameDec (.hdr []) wire₁).2 = [.H [0xaa, 0xbb], .D [], .D [0xc1, 0xc2]] ∧
+    (run frameDec (.hdr []) wire₁).1 = .hdr [] := by decide +kernel
+example : spec .server (kindsOf (run frameDec (.hdr []) wire₁).2) .fin =
+    .oneOf [{ calls := [.head [0xaa, 0xbb], .body [0xc1, 0xc2], .bodyEnd, .noTrailers] }] := by
+  decide +kernel
+example (post : List H3.FS.Ev) (hpost : ScriptOK post) :
+    (spec .server (kindsOf (run frameDec (.hdr []) wire₁).2) .fin).accepts
+      (observe (documentedChunks .server allOk
+        ([.chunk [0x01, 0x02, 0xaa], .chunk [0xbb, 0x00, 0x00, 0x00, 0x02, 0xc1], .chunk [0xc2, 0x21, 0x00]] ++
+          .fin :: post))) :=
+  C03_chunked_outcome_fin .server allOk
+    [.chunk [0x01, 0x02, 0xaa], .chunk [0xbb, 0x00, 0x00, 0x00, 0x02, 0xc1], .chunk [0xc2, 0x21, 0x00]] post
+    (by intro ev hev; simp at hev; rcases hev with rfl | rfl | rfl <;> exact ⟨_, rfl⟩)
+    (by
+      intro b hb
+      simp at hb
+      rcases hb with rfl | rfl | rfl | hb
+      · simp
+      · simp
+      · simp
+      · exact hpost b hb)
+    (by decide +kernel) (fun _ _ => ⟨rfl, rfl⟩) (by decide +kernel)
+example : observe (documentedChunks .server allOk
+    [.chunk [0x01], .chunk [0x02], .chunk [0xaa, 0xbb, 0x00, 0x00, 0x00], .chunk [0x02, 0xc1, 0xc2, 0x21], .chunk [0x00],
+      .fin]) = { calls := [.head [0xaa, 0xbb], .body [0xc1, 0xc2], .bodyEnd, .noTrailers] } := by
+  decide +kernel
+-- still open after the first nine bytes: DATA(2) has delivered one byte, the call is pending
+example : spec .client (kindsOf (run frameDec (.hdr []) (wire₁.take 9)).2) .open_ =
+    .oneOf [{ calls := [.head [0xaa, 0xbb], .body [0xc1], .pending] }] := by decide +kernel
+example : (spec .client (kindsOf (run frameDec (.hdr []) (wire₁.take 9)).2) .open_).accepts
+    (observe (documentedChunks .client allOk [.chunk [0x01, 0x02], .chunk [0xaa, 0xbb, 0x00, 0x00, 0x00, 0x02, 0xc1]])) :=
+  C03_chunked_outcome_open .client allOk [.chunk [0x01, 0x02], .chunk [0xaa, 0xbb, 0x00, 0x00, 0x00, 0x02, 0xc1]]
+    (by intro ev hev; simp at hev; rcases hev with rfl | rfl <;> exact ⟨_, rfl⟩)
+    (by intro b hb; simp at hb; rcases hb with rfl | rfl <;> simp)
+    (by decide +kernel) (fun _ _ => ⟨rfl, rfl⟩) (by decide +kernel)
+
+/-- Why the simulation is `FrameSimP` and not `FrameSim`: for a script with a `Pending` before
+    more data NO relation containing the initial configuration is a `FrameSim` between the
+    `FrameStream` model and the token source — the model answers `Pending` and then a frame, the
+    token source, once it has answered `Pending`, answers it for ever. -/
+theorem C03_strict_sim_impossible :
+    ¬ ∃ (R : FSt → TS → Prop) (a : TS), FrameSim fsSrc tokSrc R ∧
+      R ({}, [.pend, .chunk [0x01, 0x00], .fin]) a := by
+  rintro ⟨R, a, sim, h⟩
+  obtain ⟨h1, h2⟩ := sim.next _ _ h
+  have e1 : fsSrc.pollNext ({}, [.pend, .chunk [0x01, 0x00], .fin]) =
+      (.pending, ({}, [.chunk [0x01, 0x00], .fin])) := by decide +kernel
+  rw [e1] at h1 h2
+  simp only at h1 h2
+  rw [tok_pending_fix a h1.symm] at h2
+  obtain ⟨h3, _⟩ := sim.next _ _ h2
+  have e2 : (fsSrc.pollNext ({}, [.chunk [0x01, 0x00], .fin])).1 = .frame (.headers []) := by
+    decide +kernel
+  rw [e2, ← h1] at h3
+  cases h3
 
 end H3.Props.C03
